@@ -1371,12 +1371,14 @@ Proof.
   intros debug o Hq. destruct o; try discriminate Hq; [rewrite StorageD.sd_step_op_QueryAll | cbn [step_op] ..].
   - apply sp_osp_bind; [apply sp_osp_ro, readonly_resolveR|]. intros rl.
     apply sp_osp_bind; [apply sp_osp_ro, readonly_resolve_relidx|]. intros ?rl.
+    apply sp_osp_bind; [apply sp_osp_ro, readonly_check_unsafe_rels|]. intros _.
     apply sp_osp_bind; [apply sp_osp_open|]. intros qi.
     apply sp_osp_bind; [apply sp_osp_ro, StorageD.sd_ro_query_count|]. intros cnt.
     apply sp_osp_bind; [apply sp_osp_drain_go|]. intros es.
     apply sp_osp_bind; [apply sp_osp_close|]. intros _. apply sp_osp_ro, readonly_ret.
   - apply sp_osp_bind; [apply sp_osp_ro, readonly_resolveR|]. intros rl.
     apply sp_osp_bind; [apply sp_osp_ro, readonly_resolve_relidx|]. intros ?rl.
+    apply sp_osp_bind; [apply sp_osp_ro, readonly_check_unsafe_rels|]. intros _.
     apply sp_osp_bind; [apply sp_osp_open|]. intros qi. apply sp_osp_ro, readonly_ret.
   - apply sp_osp_bind; [apply sp_osp_next|]. intros b. apply sp_osp_ro, readonly_ret.
   - apply sp_osp_bind; [apply sp_osp_close|]. intros b. apply sp_osp_ro, readonly_ret.
